@@ -8,6 +8,7 @@ def run(res, tier, replay=None):
     res.functions = sum(1 for _ in prog.all_funcs())
     c11.run(prog, res, callgraph.CallGraph(prog))
     c11.run_c(prog, res)
+    c11.run_d(prog, res)
     res.assumptions = common.ASSUMPTIONS
     res.explanation = (
         "C11, atomicity by construction: pre-emption happens only in the VM loop (fuel countdown), so the lock, unlock, signal, "
@@ -16,6 +17,6 @@ def run(res, tier, replay=None):
         "unresolved indirect call once the collector's finalizer edge is cut; (b) the cut is justified on every run: no installed "
         "finalizer reaches the VM or the allocator except through sexp_finalize_port -> sexp_buffered_flush, where the store "
         "openp=0 dominates the flush call and every VM-reaching call inside sexp_buffered_flush is dominated by an openp test. "
-        "(c) the Scheme code of (srfi 18) never uses the record setters of the lock/owner/waiter slots (discovered from types.scm), so only the atomic primitives write them. Not decided: no-lost-wakeup, fairness, schedule independence (behaviour of the scheduler and of interface.scm).")
+        "(c) the Scheme code of (srfi 18) never uses the record setters of the lock/owner/waiter slots (discovered from types.scm), so only the atomic primitives write them. (d) every primitive that queues the current thread as paused stores its event and waitp fields on every path first (wake-ups are matched on event). Not decided: no-lost-wakeup, fairness, schedule independence (behaviour of the scheduler and of interface.scm).")
     if tier == "thorough":
-        common.thorough_mutations(res, "C11", {"C11": lambda p, r: (c11.run(p, r), c11.run_c(p, r, root=p.root))})
+        common.thorough_mutations(res, "C11", {"C11": lambda p, r: (c11.run(p, r), c11.run_c(p, r, root=p.root), c11.run_d(p, r, floor=0))})
